@@ -31,6 +31,12 @@
 (* Time: a cooperative process that received WTE finishes before any 1 s time-out fires; each   *)
 (* swallowing process costs the one who waits for it one unit (`elapsed`); the parent's 5 s      *)
 (* join expires once the server has used 4 units, or when the server is blocked.                *)
+(* Stop kinds: "terminate" = terminate(timeout=5, force=True); "sigterm"; "tshort" = terminate with  *)
+(* a short time-out (0.3 s): the parent's join expires while the server is still inside its `finally` *)
+(* loop, so the SIGTERM handler runs in the middle of it.  Handler and loop share `self.children`:     *)
+(* as written the loop clears the list only after it has reaped everything.  Mutant switch ClearFirst  *)
+(* (TLC must reject it): the loop takes the lists over and clears them BEFORE reaping - a handler that  *)
+(* runs during the loop then finds nothing to kill and the children not yet reaped outlive the server.  *)
 (* Fix switches: CtxTerm (proposed_fixes/C12_context_helper_*.diff): a helper that is SIGTERMed   *)
 (* kills the backends it started (as the server's own handler does) before it dies; DupTerm        *)
 (* (proposed_fixes/C12_rejected_duplicate_*.diff): the context built for a refused duplicate        *)
@@ -38,7 +44,7 @@
 (* ProcessWorker.terminate escalates to SIGKILL when the child survives SIGTERM + join).             *)
 EXTENDS Naturals, Sequences, FiniteSets, TLC, ServerProps
 
-CONSTANTS MaxKids, KidStates, Racers, CtxTerm, DupTerm, ParentKill
+CONSTANTS MaxKids, KidStates, Racers, CtxTerm, DupTerm, ParentKill, ClearFirst
 
 CtxKinds == <<"inctx", "inctx-coop", "inctx-swallow">>      \* one context (helper) per kind, in `contexts` order
 IsCtx(s) == s \in {"inctx", "inctx-coop", "inctx-swallow"}
@@ -52,9 +58,10 @@ VARIABLES how, kid, racer,      \* the configuration
           hst,                  \* helper (1..3) -> "none" | "idle" | "clean" | "dead"
           hj,                   \* helper -> next of its workers to clean up
           req, sig, sigused,    \* terminate requested / SIGTERM pending for the server / the parent has sent its one SIGTERM
+          waiting,              \* `finally` is inside the 1 s join of a swallowing child (WTE sent, not yet killed)
           elapsed,              \* seconds the server spent waiting for swallowing processes
           rk                    \* racer's backend: "none" | "spawned" (not yet in `children`) | "appended" | "dead"
-vars == <<how, kid, racer, ost, rep, spc, fi, hst, hj, req, sig, sigused, elapsed, rk>>
+vars == <<how, kid, racer, ost, rep, spc, fi, hst, hj, req, sig, sigused, waiting, elapsed, rk>>
 
 N == Len(kid)
 Direct == {k \in 1..N : ~IsCtx(kid[k]) /\ kid[k] # "orphan"}     \* "orphan": helper built for a refused duplicate registration
@@ -62,45 +69,47 @@ KidsOf(h) == {k \in 1..N : kid[k] = CtxKinds[h]}
 \* `finally` walks children (index order) and then the contexts
 FinSeq == [i \in 1..(N + 3) |-> IF i <= N THEN [t |-> "kid", x |-> i] ELSE [t |-> "helper", x |-> i - N]]
 
-Init == /\ how \in {"terminate", "sigterm"}
+Init == /\ how \in {"terminate", "sigterm", "tshort"}
         /\ kid \in UNION {[1..m -> KidStates] : m \in 0..MaxKids}
         /\ racer \in Racers
+        /\ how = "tshort" => racer = "none"
         /\ ost = [k \in 1..Len(kid) |-> IF kid[k] = "finished" \/ (kid[k] = "orphan" /\ DupTerm) THEN "dead" ELSE "run"]
         /\ rep = [k \in 1..Len(kid) |-> IF kid[k] = "finished" THEN "own" ELSE "none"]
         /\ spc = (IF racer = "addr" THEN "blocked" ELSE "serving")       \* "addr": accept() of a control socket nobody connects to
         /\ fi = 1
         /\ hst = [h \in 1..3 |-> IF \E k \in 1..Len(kid) : kid[k] = CtxKinds[h] THEN "idle" ELSE "none"]
         /\ hj = [h \in 1..3 |-> 1]
-        /\ req = FALSE /\ sig = (how = "sigterm") /\ sigused = FALSE /\ elapsed = 0
+        /\ req = FALSE /\ sig = (how = "sigterm") /\ sigused = FALSE /\ waiting = FALSE /\ elapsed = 0
         /\ rk = (IF racer = "spawned" THEN "spawned" ELSE IF racer = "appended" THEN "appended" ELSE "none")
 
 -----------------------------------------------------------------------------
-Request == /\ how = "terminate" /\ ~req /\ spc # "dead"
+Request == /\ how \in {"terminate", "tshort"} /\ ~req /\ spc # "dead"
            /\ req' = TRUE
-           /\ UNCHANGED <<how, kid, racer, ost, rep, spc, fi, hst, hj, sig, sigused, elapsed, rk>>
+           /\ UNCHANGED <<how, kid, racer, ost, rep, spc, fi, hst, hj, sig, sigused, waiting, elapsed, rk>>
 \* the racer's handshake moves on while the server is not yet stopping (S3d..S3g)
 Handshake == /\ spc = "serving" /\ rk = "spawned"
              /\ rk' = "appended"
-             /\ UNCHANGED <<how, kid, racer, ost, rep, spc, fi, hst, hj, req, sig, sigused, elapsed>>
+             /\ UNCHANGED <<how, kid, racer, ost, rep, spc, fi, hst, hj, req, sig, sigused, waiting, elapsed>>
 \* the asynchronous WTE reaches the accept thread (a blocked one only once a signal interrupts its system call)
 ExitBlocked == (\E k \in 1..N : kid[k] = "orphan" /\ ost[k] = "run") \/ rk = "spawned"
 Deliver == /\ req /\ (spc = "serving" \/ (spc = "blocked" /\ sig))
            /\ spc' = "fin" /\ fi' = 1
            /\ sig' = (IF spc = "blocked" THEN FALSE ELSE sig)        \* the signal is used up aborting its own handler
-           /\ UNCHANGED <<how, kid, racer, ost, rep, hst, hj, req, sigused, elapsed, rk>>
+           /\ UNCHANGED <<how, kid, racer, ost, rep, hst, hj, req, sigused, waiting, elapsed, rk>>
 JoinTimeout == /\ req /\ ~sigused /\ spc # "dead"
-               /\ spc = "blocked" \/ elapsed >= 4 \/ (spc = "exiting" /\ ExitBlocked)
+               /\ spc = "blocked" \/ elapsed >= 4 \/ (spc = "exiting" /\ ExitBlocked) \/ how = "tshort"
                /\ sig' = TRUE /\ sigused' = TRUE
-               /\ UNCHANGED <<how, kid, racer, ost, rep, spc, fi, hst, hj, req, elapsed, rk>>
+               /\ UNCHANGED <<how, kid, racer, ost, rep, spc, fi, hst, hj, req, waiting, elapsed, rk>>
 \* parent, after SIGTERM + a second join(5) that expired: SIGKILL (only reached with the server stuck in its exit)
 ParentKillStep == /\ ParentKill /\ req /\ sigused /\ ~sig /\ spc = "exiting" /\ ExitBlocked
                   /\ spc' = "dead"
-                  /\ UNCHANGED <<how, kid, racer, ost, rep, fi, hst, hj, req, sig, sigused, elapsed, rk>>
+                  /\ UNCHANGED <<how, kid, racer, ost, rep, fi, hst, hj, req, sig, sigused, waiting, elapsed, rk>>
 \* SIGTERM handler: kills `children` (the racer's backend only if already appended), not the contexts; then dies
+Listed == ~(ClearFirst /\ spc \in {"fin", "exiting"})         \* is there anything in self.children for the handler to walk?
 Handler == /\ sig /\ spc # "dead" /\ ~(spc = "blocked" /\ req)
-           /\ ost' = [k \in 1..N |-> IF k \in Direct THEN "dead" ELSE ost[k]]
-           /\ rk' = (IF rk = "appended" THEN "dead" ELSE rk)
-           /\ spc' = "dead"
+           /\ ost' = [k \in 1..N |-> IF k \in Direct /\ Listed THEN "dead" ELSE ost[k]]
+           /\ rk' = (IF rk = "appended" /\ Listed THEN "dead" ELSE rk)
+           /\ spc' = "dead" /\ waiting' = FALSE
            /\ UNCHANGED <<how, kid, racer, rep, fi, hst, hj, req, sig, sigused, elapsed>>
 
 \* one process asked to stop with WTE and given 1 s: (new OS state, what it reported, seconds used)
@@ -108,11 +117,14 @@ FinChild ==
    /\ spc = "fin" /\ fi <= N + 3 /\ FinSeq[fi].t = "kid"
    /\ LET k == fi IN
       IF k \notin Direct \/ ost[k] = "dead"
-      THEN UNCHANGED <<ost, rep, elapsed>>                          \* not in `children` / is_alive() is False
-      ELSE /\ ost' = [ost EXCEPT ![k] = "dead"]
-           /\ rep' = [rep EXCEPT ![k] = IF Swallows(kid[k]) THEN "none" ELSE "WTE"]
-           /\ elapsed' = IF Swallows(kid[k]) THEN elapsed + 1 ELSE elapsed
-   /\ fi' = fi + 1
+      THEN UNCHANGED <<ost, rep, elapsed, waiting>> /\ fi' = fi + 1      \* not in `children` / is_alive() is False
+      ELSE IF ~Swallows(kid[k])
+      THEN /\ ost' = [ost EXCEPT ![k] = "dead"] /\ rep' = [rep EXCEPT ![k] = "WTE"]
+           /\ fi' = fi + 1 /\ UNCHANGED <<elapsed, waiting>>
+      ELSE IF ~waiting
+      THEN waiting' = TRUE /\ elapsed' = elapsed + 1 /\ UNCHANGED <<ost, rep, fi>>   \* WTE sent; join(1) running
+      ELSE /\ ost' = [ost EXCEPT ![k] = "dead"] /\ waiting' = FALSE                  \* SIGTERM; (False, None) fabricated
+           /\ fi' = fi + 1 /\ UNCHANGED <<rep, elapsed>>
    /\ UNCHANGED <<how, kid, racer, spc, hst, hj, req, sig, sigused, rk>>
 \* the racer's worker, if it made it into `children`, is terminated like any other (its target has long returned)
 FinHelperStart ==
@@ -121,7 +133,7 @@ FinHelperStart ==
       IF hst[h] = "idle" THEN hst' = [hst EXCEPT ![h] = "clean"] /\ UNCHANGED fi     \* WTE into the helper: its clean-up starts
       ELSE IF hst[h] = "clean" THEN FALSE                                            \* joined below
       ELSE fi' = fi + 1 /\ UNCHANGED hst
-   /\ UNCHANGED <<how, kid, racer, ost, rep, spc, hj, req, sig, sigused, elapsed, rk>>
+   /\ UNCHANGED <<how, kid, racer, ost, rep, spc, hj, req, sig, sigused, waiting, elapsed, rk>>
 \* helper clean-up: its workers in order
 NextOf(h) == IF \E k \in KidsOf(h) : k >= hj[h] THEN CHOOSE k \in KidsOf(h) : k >= hj[h] /\ \A m \in KidsOf(h) : m >= hj[h] => k <= m ELSE 0
 HClean(h) ==
@@ -135,7 +147,7 @@ HClean(h) ==
            /\ rep' = [rep EXCEPT ![k] = IF ost[k] = "dead" THEN rep[k] ELSE IF Swallows(kid[k]) THEN "none" ELSE "WTE"]
            /\ hj' = [hj EXCEPT ![h] = k + 1]
            /\ UNCHANGED <<hst, fi>>
-   /\ UNCHANGED <<how, kid, racer, spc, req, sig, sigused, elapsed, rk>>
+   /\ UNCHANGED <<how, kid, racer, spc, req, sig, sigused, waiting, elapsed, rk>>
 \* the server's 1 s join on the helper expires while the helper waits for a swallowing worker: SIGTERM to the helper
 KillHelper(h) ==
    /\ spc = "fin" /\ fi <= N + 3 /\ FinSeq[fi] = [t |-> "helper", x |-> h]
@@ -144,15 +156,15 @@ KillHelper(h) ==
    /\ ost' = IF CtxTerm THEN [k \in 1..N |-> IF k \in KidsOf(h) THEN "dead" ELSE ost[k]] ELSE ost
    /\ elapsed' = elapsed + 1
    /\ fi' = fi + 1
-   /\ UNCHANGED <<how, kid, racer, rep, spc, hj, req, sig, sigused, rk>>
+   /\ UNCHANGED <<how, kid, racer, rep, spc, hj, req, sig, sigused, waiting, rk>>
 FinEnd == /\ spc = "fin" /\ fi = N + 4
           /\ spc' = "exiting"
           /\ rk' = (IF rk = "appended" THEN "dead" ELSE rk)
-          /\ UNCHANGED <<how, kid, racer, ost, rep, fi, hst, hj, req, sig, sigused, elapsed>>
+          /\ UNCHANGED <<how, kid, racer, ost, rep, fi, hst, hj, req, sig, sigused, waiting, elapsed>>
 \* run() has returned; the interpreter's exit joins the non-daemonic children
 ExitJoin == /\ spc = "exiting" /\ ~ExitBlocked
             /\ spc' = "dead"
-            /\ UNCHANGED <<how, kid, racer, ost, rep, fi, hst, hj, req, sig, sigused, elapsed, rk>>
+            /\ UNCHANGED <<how, kid, racer, ost, rep, fi, hst, hj, req, sig, sigused, waiting, elapsed, rk>>
 \* consequences of the server process being gone
 ExitEffects ==
    /\ spc = "dead"
@@ -161,7 +173,7 @@ ExitEffects ==
          /\ UNCHANGED <<rk, ost>>
       \/ /\ \E k \in 1..N : kid[k] = "orphan" /\ ost[k] = "run" /\ ost' = [ost EXCEPT ![k] = "dead"]   \* orphan helper: same
          /\ UNCHANGED <<rk, hst>>
-   /\ UNCHANGED <<how, kid, racer, rep, spc, fi, hj, req, sig, sigused, elapsed>>
+   /\ UNCHANGED <<how, kid, racer, rep, spc, fi, hj, req, sig, sigused, waiting, elapsed>>
 
 Next == Request \/ Handshake \/ Deliver \/ JoinTimeout \/ ParentKillStep \/ Handler \/ FinChild \/ FinHelperStart
         \/ (\E h \in 1..3 : HClean(h) \/ KillHelper(h)) \/ FinEnd \/ ExitJoin \/ ExitEffects
@@ -195,5 +207,6 @@ W_NoHalfStarted  == ~(spc = "dead" /\ rk = "spawned")
 W_NoGracefulCtx  == ~(Terminal /\ \E k \in 1..N : IsCtx(kid[k]) /\ rep[k] = "WTE" /\ how = "sigterm")
 W_NoExitHang     == ~(spc = "exiting" /\ ExitBlocked)
 W_NoSignalUsedUp == ~(spc = "fin" /\ sigused /\ ~sig /\ racer = "addr")
+W_NoHandlerInLoop == ~(sig /\ spc = "fin" /\ how = "tshort" /\ waiting)
 W_NoForced       == ~(Terminal /\ \E k \in 1..N : kid[k] = "swallow" /\ ost[k] = "dead")
 =============================================================================
